@@ -63,6 +63,29 @@ def match_known(known, prop, key):
     return None
 
 
+def formula_hash(ob):
+    """Hash of the obligation's SMT text with solver-generated name suffixes (x!123) renumbered in
+    order of first appearance: equal on two runs iff the verification condition is the same."""
+    import re
+
+    text = solve.to_smt2(ob)
+    seen: dict = {}
+
+    def ren(m):
+        return "!" + str(seen.setdefault(m.group(0), len(seen)))
+
+    return hashlib.sha256(re.sub(r"(?:!|\?x|\$x|a!)\d+", ren, text).encode()).hexdigest()[:16]
+
+
+def load_baseline(prop):
+    """Obligations discharged on the unchanged tree (committed; written only by --update-baseline)."""
+    p = os.path.join(VERIF, "props", "baseline", f"{prop}.json")
+    if not os.path.exists(p):
+        return {}
+    with open(p, encoding="utf-8") as f:
+        return json.load(f)
+
+
 def write_replay(prop, name, payload):
     d = os.path.join(OUT, "replays")
     os.makedirs(d, exist_ok=True)
@@ -117,13 +140,14 @@ def deductive(prop, tier, seed, reg, out):
     return kernels, obs, res
 
 
-def run_property(prop, tier, seed):
+def run_property(prop, tier, seed, update_baseline=False):
     t_start = time.time()
     reg = load_registry()
     known = load_known()
     out: dict = {}
     violations, known_hits, undecided, errors = [], [], [], []
     kernels, obs, res = deductive(prop, tier, seed, reg, out)
+    baseline = load_baseline(prop)
     env = native.base_env(reg)
     builders = reg.native_env.get("BUILDERS", {})
     by_solver: dict = {}
@@ -193,7 +217,17 @@ def run_property(prop, tier, seed):
             except Exception as e:  # noqa: BLE001
                 errors.append(f"native search crashed for {fid}: {type(e).__name__}: {e}")
         for ob, r in items:
-            hard = r["verdict"] == "sat"  # unknown/timeout never becomes a violation by itself
+            # 'sat' is a refutation.  'unknown' becomes a violation only when this very obligation was
+            # discharged on the unchanged tree (props/baseline) and its verification condition is now a
+            # different formula (the code it was generated from changed): "an obligation that passed on
+            # the unchanged tree and now fails".  Same formula + unknown = solver flakiness = undecided.
+            base = baseline.get(ob.oid)
+            regressed = (r["verdict"] != "sat" and base is not None and base.get("discharged")
+                         and base.get("vc") != formula_hash(ob))
+            if regressed:
+                r["reason"] = (f"discharged on the unchanged tree (VC {base.get('vc')}), not discharged now: "
+                               f"{r.get('reason')}")
+            hard = r["verdict"] == "sat" or regressed
             key = ob.oid
             kf = match_known(known, prop, key)
             if kf is not None:
@@ -248,7 +282,7 @@ def run_property(prop, tier, seed):
     try:
         from bounded import e2e as e2e_mod
 
-        if hasattr(e2e_mod, "run"):
+        if hasattr(e2e_mod, "run") and not os.environ.get("VERIF_DEV_NO_E2E"):
             e2e = e2e_mod.run(prop, tier, seed)
     except ImportError:
         e2e = None
@@ -281,6 +315,14 @@ def run_property(prop, tier, seed):
         print(f"VIOLATION property={prop} replay={path}{tail}")
     for e in errors:
         print(f"CHECKER-ERROR property={prop} {e}")
+
+    if update_baseline:
+        bl = {ob.oid: {"discharged": res[ob.oid]["verdict"] == ob.expect, "vc": formula_hash(ob),
+                       "verdict": res[ob.oid]["verdict"]} for ob in obs}
+        os.makedirs(os.path.join(VERIF, "props", "baseline"), exist_ok=True)
+        with open(os.path.join(VERIF, "props", "baseline", f"{prop}.json"), "w", encoding="utf-8") as f:
+            json.dump(bl, f, indent=0, sort_keys=True)
+        print(f"BASELINE property={prop} written: {sum(1 for v in bl.values() if v['discharged'])}/{len(bl)} discharged")
 
     n_ob = len(obs) - len(guards_inconclusive)
     level = "proof" if n_ob and discharged == n_ob and not undecided else "other"
@@ -353,12 +395,14 @@ def main():
     ap.add_argument("prop", nargs="?")
     ap.add_argument("--tier", default=os.environ.get("VERIF_TIER", "quick"))
     ap.add_argument("--replay")
+    ap.add_argument("--update-baseline", action="store_true",
+                    help="development only: record which obligations discharge on the unchanged tree")
     a = ap.parse_args()
     if a.replay:
         sys.exit(replay(a.replay))
     seed = int(os.environ.get("VERIF_SEED", "0"))
     try:
-        rc = run_property(a.prop, a.tier, seed)
+        rc = run_property(a.prop, a.tier, seed, a.update_baseline)
     except Exception:  # noqa: BLE001
         traceback.print_exc()
         print(f"CHECKER-ERROR property={a.prop} traceback")
